@@ -125,6 +125,12 @@ def axis_subsets(nd):
         res.append(-1)
     if nd >= 2:
         res.append([-1, 0])
+    # axis tuples that are not increasing (the caller's order is kept by the API)
+    for r in range(2, nd + 1):
+        for c in itertools.combinations(range(nd), r):
+            res.append(list(reversed(c)))
+            if r >= 3:
+                res.append(list(c[1:]) + [c[0]])
     return res
 
 
